@@ -50,3 +50,8 @@ ENTRIES = [
     N('flush-inline', "        # Make the discovered links durable before the item itself is\n        # checked in, otherwise a crash in between loses them for good.\n        self.finish()\n",
       "        self.app_session.factory['URLTable'].add_many(self._add_url_batch)\n        self._add_url_batch.clear()\n", I),
 ]
+
+ENTRIES += [
+    {'id': 'C03/pysqlite-autocommit', 'prop': 'C03', 'kind': 'break', 'expect': 'C03-D1', 'edits': [('wpull/database/sqltable.py',
+      "        connection.execute('PRAGMA journal_mode=WAL')\n", "        connection.isolation_level = None\n        connection.execute('PRAGMA journal_mode=WAL')\n")]},
+]
